@@ -71,7 +71,7 @@ def cases(draw, tier):
 
 
 def prep(inputs):
-    return {k: (v.clone().requires_grad_() if k in FLOAT_INPUTS else v) for k, v in inputs.items()}
+    return {k: (v.clone().requires_grad_() if k in FLOAT_INPUTS else v.clone()) for k, v in inputs.items()}
 
 
 def bitequal(a, b):
@@ -157,7 +157,7 @@ def run(c) -> CaseResult:
             diff = [fl[k] for k in FLOAT_INPUTS if k in fl] + list(P.values())
             g = torch.autograd.grad(y, diff, up, allow_unused=True)
     except Exception as e:  # noqa: BLE001
-        res.fail(exc_bucket(f"C15.raises[{ftag}]", e).replace("outside-library", "via-dynamo")[:300], f"{type(e).__name__}: {str(e)[:300]}\n{src}")
+        res.fail(exc_bucket("C15.raises", e).replace("outside-library", "via-dynamo")[:300], f"{type(e).__name__}: {str(e)[:300]}\n{src}")
         return res
     # reference: hand-written straight-through quantisation with the caller's format objects
     fr = prep(inputs)
